@@ -89,6 +89,16 @@ func (c *Classifier) match(in io.Reader) (Results, error) {
 		return Results{}, err
 	}
 
+	// An input without any words cannot match anything. Returning here also
+	// keeps a classifier with threshold 0, where every document passes the
+	// similarity filter below, from indexing into the empty token list.
+	if len(id.Tokens) == 0 {
+		return Results{
+			Matches:         nil,
+			TotalInputLines: 0,
+		}, nil
+	}
+
 	firstPass := make(map[string]*indexedDocument)
 	for l, d := range c.docs {
 		sim := id.tokenSimilarity(d)
